@@ -77,6 +77,9 @@ func (p *parser) optBytes() []byte {
 	if p.eat("-") {
 		return nil
 	}
+	if p.eat("_") {
+		return []byte{}
+	}
 	return p.hexBytes()
 }
 
